@@ -181,7 +181,7 @@ func (vc *VC) applyHints(loop int, at string, env *Env) {
 				vc.unsupportedf("CONTRACT-UNRESOLVED established %s: %s", h.Label, why)
 				continue
 			}
-			vc.assumeNote(fmt.Sprintf("single-writer invariant %s of %s (only %s stores into it: scanned on every run; it proves the clause)", h.Label, h.Field, h.Writer))
+			vc.assumeNote(fmt.Sprintf("single-writer invariant %s of %s (only %s stores into it: scanned on every run; each proves the clause; what the cell points to is assumed not to be changed in place once published)", h.Label, h.Field, h.Writer))
 			vc.addFact("assume", imp(vc.guard(), vc.trBool(h.E, env)))
 		}
 	}
